@@ -5,7 +5,7 @@ import json
 CHECKS = {
  "C18": dict(
    text="Lean 4 proof over two models regenerated from include/utap/range.h on every run: for integral T (arithmetic in Int, i.e. no "
-        "overflow) 50 theorems give the set-theoretic membership characterisation of every range_t operation for all integers; for "
+        "overflow) 57 theorems give the set-theoretic membership characterisation of every range_t operation for all integers, including the case where the range operand of a compound assignment is the object itself (r -= r: regenerated ...Self definitions, 7 theorems); for "
         "floating-point T the order-theoretic operations (gt lt geq leq & | contains intersects == <, incl. the +-infinity branches) "
         "are proved over an abstract linear order with infinities and nexttoward as successor. The translator is validated by "
         "running the generated model and the real range_t<int32_t> on the same operation lines; a direct set-semantics oracle "
